@@ -286,14 +286,19 @@ package biscuit
 //@ ensures tag_bool[C07 C10]: err == nil && input.Content is *pb.TermV2_Bool ==> *res is datalog.Bool && (*res).(datalog.Bool) == input.Content.(*pb.TermV2_Bool).Bool
 //@ ensures tag_set[C07 C10]: err == nil ==> ((*res is datalog.Set) == (input.Content is *pb.TermV2_Set))
 //@ ensures no_content[C07 C10]: input.Content == nil ==> err != nil
+//@ loop 0 invariant count: len(datalogSet) == #i
+//@ loop 0 invariant elems[C07]: forall j int :: { datalogSet[j] } 0 <= j && j < #i ==> scalarDec(elts[j], datalogSet[j])
+//@ ensures dec[C07]: err == nil ==> termDec(input, *res)
 
 //@ func protoPredicateToTokenPredicateV2(input *pb.PredicateV2) (res *datalog.Predicate, err error)
 //@ serves C07 C10 C19
 //@ requires pbPredWF(input)
 //@ modifies nothing
 //@ loop 0 invariant len(Terms) == len(input.Terms) && fresh(arr(Terms)) && (forall j int :: { Terms[j] } 0 <= j && j < #i ==> termWF(Terms[j]))
+//@ loop 0 invariant terms[C07]: forall j int :: { Terms[j] } 0 <= j && j < #i ==> termDec(input.Terms[j], Terms[j])
 //@ ensures err == nil ==> res != nil && fresh(res) && predWF(*res)
 //@ ensures err != nil ==> res == nil
+//@ ensures dec[C07]: err == nil ==> predDec(input, *res)
 
 //@ func protoFactToTokenFactV2(input *pb.FactV2) (res *datalog.Fact, err error)
 //@ serves C07 C10 C19
@@ -301,6 +306,7 @@ package biscuit
 //@ modifies nothing
 //@ ensures err == nil ==> res != nil && fresh(res) && predWF(res.Predicate)
 //@ ensures err != nil ==> res == nil
+//@ ensures dec[C07]: err == nil ==> predDec(input.Predicate, res.Predicate)
 
 //@ func protoExprUnaryToTokenExprUnary(op *pb.OpUnary) (res datalog.UnaryOpFunc, err error)
 //@ serves C07 C10 C19
